@@ -127,7 +127,7 @@ func parseCF(x hx.Sx) caldav.CompFilter {
 
 type trange struct{ s, e time.Time }
 
-// every comp-filter time range of the query (the table of Between results is built for these)
+// every comp-filter time range of the query (the horizon up to which a rule without end is followed lies after all of them)
 func collectRanges(f caldav.CompFilter, acc *[]trange) {
 	if !f.Start.IsZero() || !f.End.IsZero() {
 		tr := trange{f.Start, f.End}
